@@ -85,6 +85,11 @@ def de_width(facts, path):
     return next(iter(out)) if len(out) == 1 else None
 
 
+VECTOR_FIXED = {"Boolean", "Double", "Float", "Int", "BigInt", "Timestamp", "Uuid", "Timeuuid"}
+NT_ALL = {"Ascii", "Boolean", "Blob", "Counter", "Date", "Decimal", "Double", "Duration", "Float", "Int", "BigInt", "Text", "Timestamp", "Inet",
+          "SmallInt", "TinyInt", "Time", "Timeuuid", "Uuid", "Varint"}
+
+
 def vector_sizes(facts):
     b = facts.one(r"^scylla_cql_core::frame::response::result::NativeType::type_size_for_vector$")
     df = df_of(b, facts)
@@ -108,7 +113,7 @@ def vector_sizes(facts):
 
 
 def r2(ctx, facts, tabs):
-    r = ctx.rule("R2", "fixed widths agree: serializer = deserializer = CQL v4 (= vector codec where fixed)", floor=33)
+    r = ctx.rule("R2", "fixed widths agree: serializer = deserializer = CQL v4 (= vector codec where fixed)", floor=53)
     vs, vb = vector_sizes(facts)
     seen_native = set()
     for carrier, d in sorted(tabs.items()):
@@ -131,6 +136,17 @@ def r2(ctx, facts, tabs):
     for nat, w in sorted(V4_WIDTH.items()):
         if nat in vs and vs[nat] is not None:
             r.instance("vector-width:" + nat, vs[nat] == w, "NativeType::type_size_for_vector(%s) = %s, CQL width is %d" % (nat, vs[nat], w), vb.span)
+    # which natives the vector codec packs without a per-element length: Cassandra's AbstractType.valueLengthIfFixed() is
+    # overridden only by Boolean, Double, Float, Int32, Long, Timestamp, UUID and TimeUUID ("many fixed size types are
+    # treated as variable size by Cassandra", as the function's own doc comment says); every other element type carries an
+    # unsigned-vint length. A wrong entry changes the bytes of vector<T, N> on both sides at once (round trips still pass).
+    for nat in sorted(NT_ALL):
+        if nat not in vs:
+            r.fail("vector-fixedness:%s:missing" % nat, "NativeType::type_size_for_vector has no arm for %s" % nat, vb.span)
+            continue
+        r.instance("vector-fixedness:" + nat, (vs[nat] is not None) == (nat in VECTOR_FIXED),
+                   "vector<%s, N>: elements are %s, the wire format has them %s" % (nat.lower(), "packed without length (Some(%s))" % vs[nat] if vs[nat] is not None else "length-prefixed (None)",
+                                                                                      "packed without length" if nat in VECTOR_FIXED else "prefixed with an unsigned-vint length"), vb.span)
     missing = sorted(set(V4_WIDTH) - seen_native)
     r.instance("all-fixed-natives-covered", not missing, "no fixed-width carrier found for %s" % missing, nontrivial=False)
     # natives the vector codec treats as fixed must be fixed-width in v4
